@@ -13,6 +13,17 @@
  *                                               of the traversal (default), 1 NULL, 2 a 1-byte heap
  *                                               block, 3 the root of the tree, 4 the odd address 1
  *
+ *            @e EDIT { "&" EDIT }               (single traversal only) what the callback does to the
+ *                                               tree: EDIT := PATH ":" OP is carried out during the FIRST
+ *                                               call on the container at PATH ("/", "/0/1": positions at
+ *                                               that time), on that container itself, before returning:
+ *                 array   d<k> delete the last k elements   D delete all   a<jv> append
+ *                         r<i>=<jv> replace element i (ignored when i >= length)
+ *                 object  A<hexkey|->=<jv> add a member / replace the value of an existing one
+ *                         X<hexkey|-> delete a member
+ *               json_visit.c looks at a container (type, length, member table) only after the
+ *               first call on it, so the members visited are those it has after that call.
+ *
  * The flags value of every call is printed verbatim.  The user argument every call arrives
  * with is compared with the one given to json_c_visit.
  *
@@ -146,6 +157,7 @@ struct trav {
 	int parent;            /* started by the callback of this traversal … (-1: top level) */
 	size_t at;             /* … during its call number `at` */
 	int started, ret;
+	char *edits;           /* text after "@e", or NULL */
 	char *buf; size_t buflen; FILE *out;
 };
 static struct trav tr[MAXT];
@@ -156,6 +168,80 @@ static void start(int i)
 {
 	tr[i].started = 1;
 	tr[i].ret = json_c_visit(tr[i].tree, tr[i].future_flags, cbs[i], tr[i].userarg);
+}
+
+static void reindex(void)
+{
+	size_t i;
+	int t;
+	ntab = 0;
+	for (t = 0; t < ntr; t++) if (tr[t].owns_tree) index_tree(tr[t].tree, -1, 0, 0);
+	free(order);
+	order = (size_t *)malloc((ntab ? ntab : 1) * sizeof *order);
+	for (i = 0; i < ntab; i++) order[i] = i;
+	qsort(order, ntab, sizeof *order, cmp_order);
+}
+
+/* carry out the edits addressed to the container `jso` (entry e); returns 1 when the tree changed */
+static int do_edits(struct trav *me, struct json_object *jso, long e)
+{
+	char path[4096], *all, *item, *save = NULL;
+	size_t n = tab[e].depth, k = n, len = 0;
+	int changed = 0;
+	long x;
+	if (n > 500) return 0;
+	if (n > capcomp) { capcomp = n * 2; comp = (size_t *)realloc(comp, capcomp * sizeof *comp); }
+	for (x = e; x >= 0 && tab[x].parent >= 0; x = tab[x].parent) comp[--k] = tab[x].pos;
+	if (n == 0) strcpy(path, "/");
+	else for (k = 0; k < n; k++) len += (size_t)snprintf(path + len, sizeof path - len, "/%zu", comp[k]);
+	all = strdup(me->edits);
+	for (item = strtok_r(all, "&", &save); item; item = strtok_r(NULL, "&", &save)) {
+		char *colon = strchr(item, ':'), *op;
+		int isarr = json_object_get_type(jso) == json_type_array;
+		int isobj = json_object_get_type(jso) == json_type_object;
+		if (!colon) continue;
+		*colon = 0;
+		op = colon + 1;
+		if (strcmp(item, path) != 0) continue;
+		if (isarr && op[0] == 'd') {
+			size_t cnt = (size_t)strtoull(op + 1, NULL, 10), l = json_object_array_length(jso);
+			if (cnt > l) cnt = l;
+			if (cnt) { json_object_array_del_idx(jso, l - cnt, cnt); changed = 1; }
+		} else if (isarr && op[0] == 'D') {
+			size_t l = json_object_array_length(jso);
+			if (l) { json_object_array_del_idx(jso, 0, l); changed = 1; }
+		} else if (isarr && op[0] == 'a') {
+			const char *p = op + 1; int err = 0;
+			struct json_object *v = jv_parse(&p, &err);
+			if (json_object_array_add(jso, v) != 0) json_object_put(v);
+			changed = 1;
+		} else if (isarr && op[0] == 'r') {
+			char *eq = strchr(op, '=');
+			size_t i = (size_t)strtoull(op + 1, NULL, 10);
+			if (eq && i < json_object_array_length(jso)) {
+				const char *p = eq + 1; int err = 0;
+				struct json_object *v = jv_parse(&p, &err);
+				if (json_object_array_put_idx(jso, i, v) != 0) json_object_put(v);
+				changed = 1;
+			}
+		} else if (isobj && (op[0] == 'A' || op[0] == 'X')) {
+			const char *p = op + 1;
+			size_t kn;
+			unsigned char *key = jv_hexordash(&p, &kn);
+			if (op[0] == 'X') { json_object_object_del(jso, (char *)key); changed = 1; }
+			else if (*p == '=') {
+				int err = 0;
+				struct json_object *v;
+				p++;
+				v = jv_parse(&p, &err);
+				if (json_object_object_add(jso, (char *)key, v) != 0) json_object_put(v);
+				changed = 1;
+			}
+			free(key);
+		}
+	}
+	free(all);
+	return changed;
 }
 
 static int cb_common(int id, struct json_object *jso, int flags, struct json_object *parent,
@@ -220,6 +306,10 @@ static int cb_common(int id, struct json_object *jso, int flags, struct json_obj
 		}
 	}
 	fputs(" | ", f);
+	if (flags == 0 && jso && me->edits && ntr == 1) {
+		long e = tab_find(jso);
+		if (e >= 0 && do_edits(me, jso, e)) reindex();
+	}
 	k = ++me->ncalls;
 	/* the traversals this callback runs before it returns from its k-th call */
 	for (j = 0; j < ntr; j++)
@@ -267,6 +357,7 @@ static void parse_prog(int parent, size_t at)
 			*opt = 0;
 			if (next) *next = 0;
 			if (opt[1] == 'f') tr[id].future_flags = (int)strtoll(opt + 2, NULL, 10);
+			else if (opt[1] == 'e') tr[id].edits = strdup(opt + 2);
 			else if (opt[1] == 'a') {
 				switch (atoi(opt + 2)) {
 				case 0: break;
@@ -317,12 +408,10 @@ void run_case(char *rest)
 	if (bad || curtok != ntoks) printf("BADLINE");
 	else {
 		for (t = 0; t < ntr; t++) {
-			if (tr[t].owns_tree) index_tree(tr[t].tree, -1, 0, 0);
 			tr[t].out = open_memstream(&tr[t].buf, &tr[t].buflen);
 		}
-		order = (size_t *)malloc((ntab ? ntab : 1) * sizeof *order);
-		for (i = 0; i < ntab; i++) order[i] = i;
-		qsort(order, ntab, sizeof *order, cmp_order);
+		order = NULL;
+		reindex();
 		fflush(stderr);
 		{	/* the library reports invalid codes on stderr: keep the log quiet */
 			FILE *old = stderr;
@@ -345,6 +434,7 @@ void run_case(char *rest)
 		if (tr[t].owns_tree) json_object_put(tr[t].tree);
 		free(tr[t].codes);
 		(free)(tr[t].heaparg);
+		free(tr[t].edits);
 	}
 	ntab = 0;
 	free(toks);
